@@ -272,6 +272,53 @@ class _Inline(_InternalNode):
     "with-arguments-also-when-dropping": (["C03", "C12"], [("src/spox/_public.py",
         "        if not drop_unused_inputs:\n            graph = graph.with_arguments(*inputs.values())",
         "        if not drop_unused_inputs or len(inputs) == 1:\n            graph = graph.with_arguments(*inputs.values())")]),
+    # ---- round 7
+    "unk-dims-stripped-in-tensor-constructor": (["C03"], [("src/spox/_type_system.py",
+        "        rich_shape = Shape.from_simple(shape)\n",
+        "        if shape is not None:\n            shape = tuple(None if isinstance(d, str) and d.startswith('unk__') else d for d in shape)\n        rich_shape = Shape.from_simple(shape)\n")]),
+    "dfs-recursive-reference-version": (["C03"], [("src/spox/_traverse.py",
+        """    postorder: List[V] = []
+    visited: Set[V] = set()
+    stack: Set[V] = set()
+""",
+        """    postorder: List[V] = []
+    visited: Set[V] = set()
+    stack: Set[V] = set()
+
+    def _dfs(u: V):
+        if u in visited:
+            return
+        visited.add(u)
+        for v in adj(u):
+            _dfs(v)
+        postorder.append(u)
+        if post_callback is not None:
+            post_callback(u)
+
+    for s in sources:
+        _dfs(s)
+    return postorder
+""")]),
+    "long-names-cut-and-hash-suffixed": (["C12"], [("src/spox/_scope.py",
+        """    def maybe_enum(self, base: str) -> str:
+        \"\"\"Attempt to use ``base`` as a name, or return the result of ``self.enum`` for it otherwise.\"\"\"
+""",
+        """    def maybe_enum(self, base: str) -> str:
+        \"\"\"Attempt to use ``base`` as a name, or return the result of ``self.enum`` for it otherwise.\"\"\"
+        if len(base) > 80:
+            base = base[:64] + "_" + format(hash(base) & 0xFFFFFFFF, "08x")
+""")]),
+    "intros-fast-path-returns-arguments": (["C12", "C03"], [("src/spox/_internal_op.py",
+        """    return _Introduce(
+        None, _Introduce.Inputs(args), out_variadic=len(args)
+    ).outputs.outputs
+""",
+        """    if args and isinstance(args[0]._op, _Introduce) and list(args[0]._op.outputs.outputs) == list(args):
+        return args
+    return _Introduce(
+        None, _Introduce.Inputs(args), out_variadic=len(args)
+    ).outputs.outputs
+""")]),
 }
 
 
